@@ -19,7 +19,8 @@ structure Srv where
 deriving DecidableEq, Repr, Inhabited
 
 inductive SIn
-  | connect                            -- a client tries to connect (and sends its handshake)
+  | connect                            -- a client connects (transport level; whether it ever sends a handshake line or
+                                       -- leaves before / during the handshake makes no difference to this machine)
   | line (i : Nat)                     -- client `i` sends a non-blank command line
   | clientClose (i : Nat)              -- client `i` closes (clean close or EOF)
   | exitCmd (i : Nat)                  -- the bundled client's `exit` command: closes the connection
